@@ -8,6 +8,9 @@
 //! Tie: the abstract structure of the input (what the minifier's passes look at) goes to the Lean
 //!   model `A2Verif.Model.Minify`; its output lines / retargeted references / merged lengths are
 //!   compared with what the real minifier produced.  Shortening rule and guard table likewise.
+//! Sessions (`run_session`, appended after all other cases): ONE `Minifier` for several programs and levels, as the
+//!   language server uses it; every result must equal that of a fresh object (`c17/object-reuse/result-differs`) and all
+//!   oracles above plus the tie are applied to what the reused object answered.
 use crate::util::*;
 use a2kit::lang;
 use a2kit::lang::applesoft::minifier::Minifier;
@@ -587,9 +590,14 @@ impl<'a> Gen<'a> {
     }
 }
 
-fn gen_program(r: &mut Rng, discards: &mut u64, haz: &[(String, String)]) -> (String, bool) {
+fn gen_program(r: &mut Rng, discards: &mut u64, haz: &[(String, String)]) -> (String, bool) { gen_program_at(r, discards, haz, None) }
+
+/// `start`: force the first line number (sessions: programs of one session share number ranges, so that line numbers
+/// of one program coincide with branch targets / deleted REM lines of another)
+fn gen_program_at(r: &mut Rng, discards: &mut u64, haz: &[(String, String)], start: Option<usize>) -> (String, bool) {
     let n = r.range(2, 9);
-    let start = *r.pick(&[1usize, 5, 10, 10, 100, 1000, 63000]);
+    let start0 = *r.pick(&[1usize, 5, 10, 10, 100, 1000, 63000]);
+    let start = start.unwrap_or(start0);
     let step = *r.pick(&[1usize, 5, 10, 10, 10, 100]);
     let nums: Vec<usize> = (0..n).map(|i| start + i * step).collect();
     // which lines are REM-only: chains, first / last line forced now and then
@@ -677,6 +685,13 @@ fn lit_ids(toks: &[RT], table: &mut Vec<(u8, Vec<u8>)>, add: bool) -> Vec<usize>
 }
 
 fn run_case(ctx: &mut Ctx, idx: usize, prog: &str, fam: &str) {
+    let results: Vec<Res> = (0..4).map(|l| minify(prog, l)).collect();
+    run_case_with(ctx, idx, prog, fam, results, "");
+}
+
+/// all oracles and the model tie on the four results `results[level]` of one program, wherever they come from
+/// (fresh objects, or one long-lived object in the middle of a session: `note` then says where)
+fn run_case_with(ctx: &mut Ctx, idx: usize, prog: &str, fam: &str, results: Vec<Res>, note: &str) {
     let inp = observe(prog);
     let valid_in = verifies(prog) && ascending(&inp.nums) && tokenizes(prog);
     if !valid_in {
@@ -689,7 +704,6 @@ fn run_case(ctx: &mut Ctx, idx: usize, prog: &str, fam: &str) {
     let mut lit_table: Vec<(u8, Vec<u8>)> = Vec::new();
     let in_lits: Vec<Vec<usize>> = inp.per_line.iter().map(|(_, t)| lit_ids(t, &mut lit_table, true)).collect();
     let in_set: BTreeSet<usize> = inp.nums.iter().cloned().collect();
-    let results: Vec<Res> = (0..4).map(|l| minify(prog, l)).collect();
     let mut nontrivial = false;
     // observed variant bits for the tie
     let mut bit_remap = true;
@@ -701,7 +715,7 @@ fn run_case(ctx: &mut Ctx, idx: usize, prog: &str, fam: &str) {
     let last_deletable = abs.last().map(|a| a.rem || a.rem_nested).unwrap_or(false);
 
     for level in 0..4usize {
-        let case = format!("idx={} level={} prog={:?}", idx, level, prog);
+        let case = format!("idx={} level={} prog={:?}{}", idx, level, prog, note);
         let res = &results[level];
         ctx.out.count(&format!("level{}", level));
         let out = match res {
@@ -950,6 +964,71 @@ fn run_juxt_cases(ctx: &mut Ctx, idx: usize) {
     ctx.out.case(b"juxtaposition-sweep", hazardous > 0);
 }
 
+// ------------------------------------------------------------------------------------------------
+// sessions: ONE Minifier object for several programs and levels (what the language server does)
+// ------------------------------------------------------------------------------------------------
+
+/// a program whose first pass fails on a LATE line (`Err(LineNumber)`: the primary line number is not a `usize`),
+/// so that `minify` returns early and leaves behind what pass 1 collected up to there
+fn gen_failing_program(r: &mut Rng, discards: &mut u64, haz: &[(String, String)], start: Option<usize>) -> String {
+    let (p, _) = gen_program_at(r, discards, haz, start);
+    let mut lines: Vec<String> = p.lines().map(|l| l.to_string()).collect();
+    let k = r.range(1, lines.len().max(2) - 1).min(lines.len());
+    lines.insert(k, format!("{} PRINT", "9".repeat(r.range(21, 30))));
+    lines.join("\n") + "\n"
+}
+
+fn call_shared(m: &mut Minifier, src: &str, level: usize) -> Res {
+    match guarded(|| { m.set_level(level); m.minify(src).map_err(|e| e.to_string()) }) {
+        Ok(Ok(s)) => Res::Ok(s),
+        Ok(Err(e)) => Res::Err(e),
+        Err(p) => Res::Panic(panic_site(&p)),
+    }
+}
+
+fn short_res(r: &Res) -> String { match r { Res::Ok(s) => format!("Ok({:?})", s), Res::Err(e) => format!("Err({})", e), Res::Panic(p) => format!("Panic({})", p) } }
+
+/// One object, 2-6 programs, each at the four levels in random order.  Oracle `c17-object-reuse`: every result equals
+/// the result of a FRESH object on the same (program, level); and all per-result oracles of `run_case_with` (output
+/// valid, references resolve, literals, variables, reserved words) plus the model tie are applied to the results the
+/// REUSED object gave.
+fn run_session(ctx: &mut Ctx, idx: usize, r: &mut Rng, discards: &mut u64, haz: &[(String, String)]) {
+    let ncalls = r.range(2, 6);
+    let mut shared = Minifier::new();
+    let mut history: Vec<String> = Vec::new();
+    let session_start = *r.pick(&[1usize, 5, 10, 10, 100]);
+    let mut differs = 0;
+    for k in 0..ncalls {
+        let start = if r.chance(70) { Some(session_start) } else { None };
+        let failing = k + 1 < ncalls && r.chance(15);
+        let prog = if failing { gen_failing_program(r, discards, haz, start) } else { gen_program_at(r, discards, haz, start).0 };
+        let mut order: Vec<usize> = vec![0, 1, 2, 3];
+        for i in (1..4).rev() { let j = r.below(i + 1); order.swap(i, j); }
+        // sometimes only the deleting / combining levels (fewer calls between two programs)
+        if r.chance(35) { order.retain(|l| *l >= 2); }
+        let mut results: Vec<Option<Res>> = vec![None; 4];
+        for level in order.iter().cloned() {
+            let rs = call_shared(&mut shared, &prog, level);
+            let rf = minify(&prog, level);
+            let same = rs == rf;
+            if !same { differs += 1; }
+            let case = format!("idx={} call={} level={} prog={:?} reused={} fresh={} earlier-calls=[{}]", idx, history.len(), level, prog,
+                short_res(&rs), short_res(&rf), history.join(" ; "));
+            ctx.out.oracle(same, "c17-object-reuse", "c17/object-reuse/result-differs", &case);
+            history.push(format!("L{} {:?}", level, prog));
+            results[level] = Some(rs);
+            ctx.out.count(if failing { "session/failed-call" } else { "session/call" });
+        }
+        if failing { ctx.out.count("session/program-failing-late"); continue; }
+        // the per-result oracles and the tie on what the REUSED object answered (levels not called: fresh)
+        let full: Vec<Res> = (0..4).map(|l| match &results[l] { Some(x) => x.clone(), None => minify(&prog, l) }).collect();
+        let note = format!(" session-call={} earlier-calls=[{}]", k, history[..history.len().saturating_sub(order.len())].join(" ; "));
+        run_case_with(ctx, idx, &prog, "c17/object-reuse", full, &note);
+    }
+    ctx.out.count("sessions");
+    if differs > 0 { ctx.out.count("sessions-with-differing-result"); }
+}
+
 pub fn run(ctx: &mut Ctx) {
     if let Ok(p) = std::env::var("C17_PROBE") {
         let src = std::fs::read_to_string(p).unwrap();
@@ -985,6 +1064,14 @@ pub fn run(ctx: &mut Ctx) {
     idx += 1;
     for (p, fam) in FIXED2.iter() {
         if ctx.out.wants(idx) { run_case(ctx, idx, p, fam); }
+        idx += 1;
+    }
+    // sessions on one long-lived object (appended: earlier case numbers stay put)
+    let ns = ctx.n(200, 6000);
+    let mut rs = Rng::new(ctx.seed).fork(0x5E55);
+    for _ in 0..ns {
+        let mut r = rs.fork(idx as u64);
+        if ctx.out.wants(idx) { run_session(ctx, idx, &mut r, &mut discards, &haz); }
         idx += 1;
     }
     ctx.out.count_n("discarded-invalid-lines", discards);
